@@ -7,7 +7,9 @@ Oracle  : vt/ref/quad.py - rigorous bracket [sum of chords, sum of control-polyg
           speed vanishes inside [t0,t1] is decided exactly (rational gcd of x'(t), y'(t)).
 Configurations: scipy available / blocked before import (pure-Python recursive fallback).
 """
+import cmath
 import math
+import random
 from fractions import Fraction as F
 
 import numpy as np
@@ -32,11 +34,11 @@ TIERS = {
     'quick': {'shards': 8, 'shards_alt': 6, 'random': 6600, 'random_alt': 240, 'timeout': 900, 'min_cases': 3000,
               'max_timeouts': 3,
               'require_branches': ['speed-vanishes-inside', 'collinear:dyadic', 'collinear:nondyadic', 'cubic:cusp',
-                                   'config:noscipy', 'config:scipy', 'arc:eccentric']},
+                                   'config:noscipy', 'config:scipy', 'arc:eccentric', 'quad:nearly-straight', 'path:edited']},
     'thorough': {'shards': 10, 'shards_alt': 4, 'random': 300000, 'random_alt': 12000, 'timeout': 3400,
                  'min_cases': 100000, 'max_timeouts': 20,
                  'require_branches': ['speed-vanishes-inside', 'collinear:dyadic', 'collinear:nondyadic', 'cubic:cusp',
-                                      'config:noscipy', 'config:scipy', 'arc:eccentric']},
+                                      'config:noscipy', 'config:scipy', 'arc:eccentric', 'quad:nearly-straight', 'path:edited']},
 }
 CASE_TIMEOUT = 40
 EPS = gen.EPS
@@ -274,8 +276,19 @@ def _gen_seg(rng, scale_exp):
         return [kind] + [[z.real, z.imag] for z in pts]
     if k < 0.12:
         return out('L', [p(), p()]), ['line']
-    if k < 0.22:
+    if k < 0.17:
         return out('Q', [p(), p(), p()]), ['quad:generic']
+    if k < 0.22:
+        # nearly straight and nearly uniformly traversed: control point within 1e-9 .. 1e-4 chord lengths of the
+        # chord midpoint (the library switches formula on |a|/|b|; every regime between "exactly linear" and
+        # "ordinary" has to be right)
+        s, e = p(), p()
+        if s == e:
+            e = s + scale
+        delta = abs(e - s) * 10.0 ** rng.uniform(-9, -4.1) * cmath.exp(1j * rng.uniform(0, 2 * math.pi))
+        if rng.random() < 0.3:
+            delta = abs(delta) * (e - s) / abs(e - s) * rng.choice([-1, 1])      # collinear variant
+        return out('Q', [s, (s + e) / 2 + delta, e]), ['quad:nearly-straight']
     if k < 0.34:
         # collinear quadratic, with / without fold-back, dyadic / non-dyadic
         dy = rng.random() < 0.5
@@ -356,7 +369,7 @@ def cases(ctx):
 def run_case(ctx, case):
     ctx.branch('config:' + ctx.config)
     for c in case['cls']:
-        if c in ('collinear:dyadic', 'collinear:nondyadic', 'cubic:cusp', 'arc:eccentric'):
+        if c in ('collinear:dyadic', 'collinear:nondyadic', 'cubic:cusp', 'arc:eccentric', 'quad:nearly-straight'):
             ctx.branch(c)
     if case['kind'] == 'seg':
         s = gen.seg(case['seg'])
@@ -381,6 +394,28 @@ def run_case(ctx, case):
         p.length(T0, T1)
         p.length(0, T1)
         p.length(T0, 1)
+        # the cached total must follow every edit made through the Path's own interface (judged by the Path.length
+        # monitor against the segments).  Assigning a control point of a contained segment directly is NOT driven:
+        # the Path cannot see it, the cached total goes stale, and neither C06 nor C16 quantifies over that.
+        from svgpathtools import Line
+        rng = random.Random(repr(case['T']))
+        for step in range(3):
+            k = rng.randrange(len(p))
+            op = rng.choice(['del', 'set', 'insert', 'append', 'reverse-seg'])
+            ctx.note('edit:' + op)
+            if op == 'del' and len(p) > 1:
+                del p[k]
+            elif op == 'set':
+                p[k] = Line(p[k].start, p[k].end + (1 + 2j))
+            elif op == 'insert':
+                p.insert(k, Line(p[k].start - (3 + 1j), p[k].start))
+            elif op == 'append':
+                p.append(Line(p[-1].end, p[-1].end + (2 - 5j)))
+            elif op == 'reverse-seg':
+                p[k] = p[k].reversed()
+            p.length()
+            p.length(T0, T1)
+            ctx.branch('path:edited')
 
 
 def crash_key(ctx, case, e, site):
